@@ -533,6 +533,59 @@ fn gen_cases(seed: u64, thorough: bool) -> Vec<Case> {
     for b in fixed_startup {
         cs.push(Case::Startup(b));
     }
+    // ---- UTF-8 boundary matrix: every lead byte x second-byte class x continuation pattern, complete and
+    //      truncated, as the payload of a well-framed Query (validates utf8_valid against String::from_utf8) ----
+    for lead in 0x80u16..=0xFF {
+        let lead = lead as u8;
+        let natural = if lead < 0xC0 { 1 } else if lead < 0xE0 { 2 } else if lead < 0xF0 { 3 } else { 4 };
+        let seconds: &[u8] = if natural == 1 { &[0x80] } else { &[0x7F, 0x80, 0x8F, 0x90, 0x9F, 0xA0, 0xBF, 0xC0] };
+        let tails: &[(u8, u8)] = if natural <= 2 { &[(0x80, 0x80)] } else { &[(0x80, 0x80), (0xBF, 0xBF), (0x41, 0x80), (0x80, 0x41)] };
+        for &b1 in seconds {
+            for &(b2, b3) in tails {
+                let seq = [lead, b1, b2, b3];
+                for n in [natural, natural - 1] {
+                    if n == 0 {
+                        continue;
+                    }
+                    let mut p = vec![b'a'];
+                    p.extend_from_slice(&seq[..n]);
+                    p.push(b'z');
+                    p.push(0);
+                    cs.push(Case::Decode(frame(b'Q', 4 + p.len() as i32, &p)));
+                }
+            }
+        }
+    }
+    // ---- long frames (the NUL search and the length arithmetic far from the header) -----------------------
+    let mut r = Rng::new(seed, "c27/long");
+    for k in 0..8u64 {
+        let n = 200 + r.below(1800);
+        let mut p: Vec<u8> = Vec::new();
+        while (p.len() as u64) < n {
+            p.extend_from_slice(&rand_utf8(&mut r, 40));
+        }
+        match k % 4 {
+            0 => p.push(0),
+            1 => {
+                // NUL in the middle as well
+                let at = p.len() / 2;
+                p[at] = 0;
+                p.push(0);
+            }
+            2 => {} // no NUL inside the frame
+            _ => {
+                p.push(0);
+                p.extend_from_slice(b"X\0\0\0\x04");
+            }
+        }
+        let declared = if k % 4 == 3 { p.len() as i32 - 5 + 4 } else { p.len() as i32 + 4 };
+        let mut f = frame(b'Q', declared, &p);
+        if k % 4 == 2 {
+            f.extend_from_slice(&good_frame(&mut r));
+        }
+        cs.push(Case::Decode(f.clone()));
+        cs.push(Case::Stream(f, vec![]));
+    }
     // ---- every prefix and every length splice of well-formed frames ---------------------------
     let mut r = Rng::new(seed, "c27/splice");
     for _ in 0..(220 * scale) {
